@@ -488,18 +488,23 @@ def differenceUpdate (i : IIndex) (other : List (Key × Rows)) : M IIndex := do
   pure { i with entries := es }
 
 
-/-- `update(entries)`: mask out overwritten cells, then union in the new ones -/
-def update (i : IIndex) (ents : List (Key × Rows)) : M IIndex := do
-  -- other_cell_mask[(new_rowids,) + coords[1:]] = True
-  let hit (k : Key) (r : Nat) : Bool := ents.any (fun e => e.1.drop 1 == k.drop 1 && e.2.contains r)
-  for e in ents do
-    if e.2.any (fun r => r ≥ i.nrows) then throw (.indexError "update row id")
-    if e.1.length ≠ i.ndim then throw (.indexError "update key arity")
-  let es := i.entries.foldl (fun (es : List (Key × Rows)) (e : Key × Rows) =>
-    let keep := e.2.filter (fun r => !hit e.1 r)
+/-- `other_cell_mask[(new_rowids,) + coords[1:]]`: is cell `(r, k[1:])` assigned by the update? -/
+def updHit (ents : List (Key × Rows)) (k : Key) (r : Nat) : Bool :=
+  ents.any (fun e => e.1.drop 1 == k.drop 1 && e.2.contains r)
+
+/-- first pass of `update`: remove the old association of every overwritten cell -/
+def updMask (i : IIndex) (ents : List (Key × Rows)) : List (Key × Rows) :=
+  i.entries.foldl (fun (es : List (Key × Rows)) (e : Key × Rows) =>
+    let keep := e.2.filter (fun r => !updHit ents e.1 r)
     if keep.length = e.2.length then es
     else if keep.isEmpty then ddel es e.1 else dset es e.1 keep) i.entries
-  unionUpdate { i with entries := es } (ents.filter (fun e => val0 e.1 != i.common))
+
+/-- `update(entries)`: mask out overwritten cells, then union in the new ones -/
+def update (i : IIndex) (ents : List (Key × Rows)) : M IIndex :=
+  -- fancy indexing of the mask raises for a row id or a key that does not fit the shape
+  if ents.any (fun e => e.2.any (fun r => r ≥ i.nrows)) then throw (.indexError "update row id") else
+  if ents.any (fun e => e.1.length != i.ndim) then throw (.indexError "update key arity") else
+  unionUpdate { i with entries := updMask i ents } (ents.filter (fun e => val0 e.1 != i.common))
 
 /-- `column_stack(iindexes, new_common, copy)`; sparsities in exact arithmetic -/
 def columnStack (ixs : List IIndex) (newCommon : Option Int) : M IIndex := do
